@@ -115,6 +115,16 @@ def gen_case(g):
         if left["k"] != "np":
             dividend = left
             spelling = rng.choice(["divmod", "ops"])
+    if kind == "int" and cls in ("general", "univariate", "multitop") and divisor["k"] == "poly" \
+            and rng.random() < 0.2:
+        # unsigned / narrow coefficient types in the divisor (and sometimes the dividend)
+        dtype = rng.choice(["uint8", "uint16", "uint32", "uint64", "int8", "int16"])
+        for spec in [divisor] + ([dividend] if dividend["k"] == "poly" and rng.random() < 0.5 else []):
+            spec["dtype"] = dtype
+            if dtype.startswith("u"):
+                spec["coefs"] = [G.nested_map(lambda v: abs(v) if not isinstance(v, dict) else v, c)
+                                 for c in spec["coefs"]]
+        case["dtype"] = dtype
     case.update({"dividend": dividend, "divisor": divisor, "spelling": spelling})
     return case
 
@@ -171,6 +181,7 @@ def run_case(case, ctx, monitor):
     bfeat = G.spec_features(b_spec)
     afeat = G.spec_features(a_spec)
     facts = {"op": "poly_divmod", "spelling": case["spelling"], "class": case["class"],
+             "dtype": case.get("dtype", ""),
              "divisor_incomparable_tops": multitop, "n_names": len(names),
              "left_kind": afeat["kind"]}
     nontrivial = any(not e.is_const() and e.nterms() >= 2 for e in bm.ravel().tolist())
